@@ -36,23 +36,34 @@ def run(ctx):
         mc(ctx, fam, "Lanes", "Lanes_MC_big.cfg", workers=16, timeout=3000, heap="16g")
         mc(ctx, fam, "Lanes", "Lanes_MC_big_mline.cfg", workers=16, timeout=3000, heap="16g")
         mc(ctx, fam, "Lanes", "Lanes_MC_big4.cfg", workers=16, timeout=3000, heap="16g")
-    pdir, plans = ctx.tlc_plans(fam, "Lanes_Gen", "Lanes_Gen.cfg", num=ctx.q(300, 5000), depth=44)
+    pdir, plans = ctx.tlc_plans(fam, "Lanes_Gen", "Lanes_Gen.cfg", num=ctx.q(220, 5000), depth=44)
     binary = ctx.go_build("c14")
-    ctx.harness(binary, ["-plans", pdir, "-out", ctx.path("steps.ndjson"), "-stress", ctx.path("stress.ndjson"),
-                         "-seed", ctx.seed, "-rand", ctx.q(60, 1500), "-nstress", ctx.q(16, 600)],
-                timeout=2400)
-    steps = ctx.load_traces(ctx.path("steps.ndjson"))
-    stress = ctx.load_traces(ctx.path("stress.ndjson"))
-    rj = ctx.validate(fam, "Lanes_Trace", "Lanes_Trace.cfg", steps, label="steps", chunk=20000,
+    tfile = ctx.path("traces.ndjson")
+    # one trace file, flushed per event: if the process dies inside neptune, vlib appends a `crash`
+    # event to the history that led to it and the spec rejects it
+    ctx.harness(binary, ["-plans", pdir, "-out", tfile, "-seed", ctx.seed, "-rand", ctx.q(50, 1500),
+                         "-nstress", ctx.q(16, 600), "-nlife", ctx.q(56, 2800)],
+                timeout=2400, traces=[tfile])
+    alltr = ctx.load_traces(tfile)
+    mode = lambda t: t[0]["src"].split(":")[0]
+    steps = [t for t in alltr if mode(t) in ("plan", "rand")]
+    life = [t for t in alltr if mode(t) == "life"]
+    stress = [t for t in alltr if mode(t) == "stress"]
+    if len(steps) + len(life) + len(stress) != len(alltr):
+        raise MachineryError("trace with an unknown src")
+    rj = ctx.validate(fam, "Lanes_Trace", "Lanes_Trace.cfg", life, label="life", chunk=8000,
                       max_rejections=8)
+    rj += ctx.validate(fam, "Lanes_Trace", "Lanes_Trace.cfg", steps, label="steps", chunk=20000,
+                       max_rejections=8)
     rj += ctx.validate(fam, "Lanes_Trace", "Lanes_Trace.cfg", stress, label="stress", chunk=4000,
                        max_rejections=8)
     ctx.judge(rj, describe=describe)
     ctx.extra["plans"] = len(plans)
     ctx.extra["step_traces"] = len(steps)
     ctx.extra["stress_traces"] = len(stress)
+    ctx.extra["life_cycle_rounds"] = len(life)
     kinds = {}
-    for t in steps + stress:
+    for t in alltr:
         k = "%s/lanes=%d/q=%d" % (t[0]["kind"], t[0]["nl"], t[0]["qsize"])
         kinds[k] = kinds.get(k, 0) + 1
     ctx.extra["configurations"] = kinds
